@@ -139,7 +139,10 @@ Definition FOpsT (tbl : list libm_entry) : Ops float := {|
   cos_ := fun x => libm_lookup tbl 0 x 0%float; sin_ := fun x => libm_lookup tbl 1 x 0%float;
   acos_ := fun x => libm_lookup tbl 2 x 0%float;
   atan2_ := fun y x => libm_lookup tbl 3 y x;
-  pow_ := fun x y => libm_lookup tbl 4 x y;
+  (* math.pow is recorded; the `**` operator cannot be intercepted, so x ** 1.5 falls back to x * sqrt x
+     (compared with a relative tolerance, never bit for bit) *)
+  pow_ := fun x y => let r := libm_lookup tbl 4 x y in
+                     if PrimFloat.is_nan r && PrimFloat.eqb y 0x1.8p+0%float then PrimFloat.mul x (PrimFloat.sqrt x) else r;
   trunc_ := F_trunc; floor_ := F_floor; copysign_ := F_copysign;
   pi_ := 0x1.921fb54442d18p+1%float
 |}.
@@ -158,6 +161,18 @@ Definition pt_fclose (tol : float) (a b : pt float) : bool := fclose tol (px a) 
 Definition seg2_feq (a b : seg2 float) : bool := pt_feq (l0 a) (l0 b) && pt_feq (l1 a) (l1 b).
 Definition seg3_feq (a b : seg3 float) : bool := pt_feq (q0 a) (q0 b) && pt_feq (q1 a) (q1 b) && pt_feq (q2 a) (q2 b).
 Definition seg4_feq (a b : seg4 float) : bool := pt_feq (c0 a) (c0 b) && pt_feq (c1 a) (c1 b) && pt_feq (c2 a) (c2 b) && pt_feq (c3 a) (c3 b).
+Definition seg2_fclose tol (a b : seg2 float) : bool := pt_fclose tol (l0 a) (l0 b) && pt_fclose tol (l1 a) (l1 b).
+Definition seg3_fclose tol (a b : seg3 float) : bool := pt_fclose tol (q0 a) (q0 b) && pt_fclose tol (q1 a) (q1 b) && pt_fclose tol (q2 a) (q2 b).
+Definition seg4_fclose tol (a b : seg4 float) : bool := pt_fclose tol (c0 a) (c0 b) && pt_fclose tol (c1 a) (c1 b) && pt_fclose tol (c2 a) (c2 b) && pt_fclose tol (c3 a) (c3 b).
+Definition mat_cmp (e : float -> float -> bool) (a b : mat3 float) : bool :=
+  e (m00 a) (m00 b) && e (m01 a) (m01 b) && e (m02 a) (m02 b) && e (m10 a) (m10 b) && e (m11 a) (m11 b) && e (m12 a) (m12 b) &&
+  e (m20 a) (m20 b) && e (m21 a) (m21 b) && e (m22 a) (m22 b).
+Definition mat_feq := mat_cmp feq.
+Definition mat_fclose tol := mat_cmp (fclose tol).
+Definition ix_feq (a b : float * pt float * float) : bool :=
+  feq (fst (fst a)) (fst (fst b)) && pt_feq (snd (fst a)) (snd (fst b)) && feq (snd a) (snd b).
+Definition ix_fclose tol (a b : float * pt float * float) : bool :=
+  fclose tol (fst (fst a)) (fst (fst b)) && pt_fclose tol (snd (fst a)) (snd (fst b)) && fclose tol (snd a) (snd b).
 Fixpoint list_eqb {A : Type} (e : A -> A -> bool) (l1 l2 : list A) : bool :=
   match l1, l2 with
   | [], [] => true
